@@ -9,6 +9,7 @@ import (
 	"io"
 	"net"
 	"net/http"
+	"strings"
 	"sync"
 
 	utls "github.com/refraction-networking/utls"
@@ -245,6 +246,10 @@ type H2Peer struct {
 	wmu     sync.Mutex
 	nf      chan struct{} // closed and replaced whenever a frame is logged
 	hold    chan struct{} // when non-nil the reader pauses before its next ReadFrame until it is closed
+
+	// NeverIndex: header names (lower case) whose fields are sent as HPACK "literal never indexed" (RFC 7541
+	// 6.2.3), as clients do for credentials and the like; the value is the same value
+	NeverIndex map[string]bool
 }
 
 // PauseReads makes the reader goroutine stop taking bytes off the connection (a client that does not
@@ -366,7 +371,7 @@ func (p *H2Peer) Done() <-chan struct{} { return p.done }
 func (p *H2Peer) Encode(fields [][2]string) []byte {
 	p.eb.Reset()
 	for _, f := range fields {
-		p.Enc.WriteField(hpack.HeaderField{Name: f[0], Value: f[1]})
+		p.Enc.WriteField(hpack.HeaderField{Name: f[0], Value: f[1], Sensitive: p.NeverIndex[strings.ToLower(f[0])]})
 	}
 	return append([]byte{}, p.eb.Bytes()...)
 }
